@@ -327,7 +327,7 @@ def exact_cog_part(R: Run, mods):
     rng = R.rng
     anchors = ["default", "default", "edge", "center", "floating", (0.25, 0.75)]
     srcs = []
-    for _ in range(R.pick(120, 1200)):
+    for _ in range(R.pick(120, 900)):
         crs = rng.choice(["EPSG:32633", "EPSG:3857", "EPSG:4326", "EPSG:3577", "EPSG:6933", "ESRI:54009", "OGC:CRS84"])
         ny, nx = rng.randint(1, 60), rng.randint(1, 60)
         if crs in ("EPSG:4326", "OGC:CRS84"):
@@ -428,7 +428,7 @@ def utm_part(R: Run, mods):
     from odc.geo import geom
 
     rng = R.rng
-    for _ in range(R.pick(32, 400)):
+    for _ in range(R.pick(32, 120)):
         lon = rng.uniform(-179, 179)
         lat = rng.uniform(-79, 83)
         if 56 <= lat <= 64 and 0 <= lon <= 13 or lat >= 72 and 0 <= lon <= 42:
@@ -615,7 +615,7 @@ def float_part(R: Run, mods):
     Affine, GeoBox, ov, M, CRS, norm_crs, _pick, resxy_, xy_, AnchorEnum = mods
     rng = R.rng
     anchors = ["default", "default", "default", "edge", "center", "floating", (0.3, 0.6)]
-    for it in range(R.pick(110, 900)):
+    for it in range(R.pick(110, 600)):
         aus = rng.random() < 0.2
         if aus:
             lon, lat = rng.uniform(118, 148), rng.uniform(-38, -15)
@@ -842,7 +842,7 @@ def judge(R, mods, g, dst, mode, shape, tight, anchor, tol, rnd, out, spy, case,
     if shape is None:
         sny, snx = g.shape
         stride = 1
-        limit = 10 ** 6 if R.quick else 4 * 10 ** 6
+        limit = 10 ** 6 if R.quick else 2 * 10 ** 6
         while ((sny // stride) + 2) * ((snx // stride) + 2) > limit:
             stride += 1
         jj = np.unique(np.concatenate([np.arange(0, snx + 1, stride), [snx]])).astype("float64")
@@ -875,7 +875,7 @@ def coarse_part(R: Run, mods):
     anchor fractions are derived from the footprint bbox the code will see)"""
     Affine, GeoBox, ov, M, CRS, norm_crs, _pick, resxy_, xy_, AnchorEnum = mods
     rng = R.rng
-    for _ in range(R.pick(48, 400)):
+    for _ in range(R.pick(48, 160)):
         k = rng.random()
         if k < 0.6:
             z = rng.randint(28, 37)
